@@ -172,9 +172,9 @@ impl Check for Forwarder {
     }
     fn runs(&self, tier: Tier) -> u64 {
         if tier == Tier::Quick {
-            500
+            5000
         } else {
-            40_000
+            100000
         }
     }
     fn components(&self) -> serde_json::Value {
